@@ -117,6 +117,11 @@ class Settings(object):
     poly_normal_form = True  # equalities: first try the polynomial normal form modulo the primitives' axioms
 
 
+def default_uf(*args):
+    """Concrete stand-in of an uninterpreted function the solver's model says nothing about."""
+    return 0.25 + sum(0.5 ** (i + 1) * math.sin(float(a) + i) for i, a in enumerate(args))
+
+
 class Ctx(object):
     def __init__(self, mode, values=None, funcs=None, settings=None, canary=False):
         self.mode = mode
@@ -242,9 +247,7 @@ class Ctx(object):
             return f
         tab = self.funcs.get(name)
         if tab is None:
-            def g(*args):
-                return 0.25 + sum(0.5 ** (i + 1) * math.sin(float(a) + i) for i, a in enumerate(args))
-            return g
+            return default_uf
         return tab
 
     def snapshot(self, x):
